@@ -22,10 +22,21 @@ import (
 	"verif/engine/sym"
 )
 
-const (
-	RepoDir  = "/repo"
-	VerifDir = "/verif"
+const VerifDir = "/verif"
+
+// RepoDir is the tree under check and OutDir the place of evidence and replays. The registered commands use the
+// defaults; VERIF_REPO / VERIF_OUT exist for the developer tools that evaluate a seeded change in a scratch worktree.
+var (
+	RepoDir = envOr("VERIF_REPO", "/repo")
+	OutDir  = envOr("VERIF_OUT", VerifDir)
 )
+
+func envOr(k, d string) string {
+	if v := os.Getenv(k); v != "" {
+		return v
+	}
+	return d
+}
 
 var GoEnv = append(os.Environ(), "GOFLAGS=-mod=mod", "GOPROXY=off", "GOSUMDB=off", "GOTOOLCHAIN=local")
 
@@ -146,7 +157,7 @@ func (r *Run) WriteReplay(class string, files map[string]string) string {
 	r.mu.Lock()
 	defer r.mu.Unlock()
 	safe := regexp.MustCompile(`[^A-Za-z0-9_.-]`).ReplaceAllString(class, "_")
-	dir := filepath.Join(VerifDir, "replays", r.ID, safe)
+	dir := filepath.Join(OutDir, "replays", r.ID, safe)
 	os.MkdirAll(dir, 0o777)
 	for n, c := range files {
 		os.WriteFile(filepath.Join(dir, n), []byte(c), 0o666)
@@ -312,9 +323,9 @@ func (r *Run) Finish(level string) int {
 		kf = append(kf, c)
 	}
 	cv["known_findings_observed"] = kf
-	os.MkdirAll(filepath.Join(VerifDir, "evidence"), 0o777)
+	os.MkdirAll(filepath.Join(OutDir, "evidence"), 0o777)
 	b, _ := json.MarshalIndent(r.Ev, "", " ")
-	os.WriteFile(filepath.Join(VerifDir, "evidence", r.ID+".json"), append(b, '\n'), 0o666)
+	os.WriteFile(filepath.Join(OutDir, "evidence", r.ID+".json"), append(b, '\n'), 0o666)
 	if r.Native != nil {
 		r.Native.Close()
 	}
